@@ -4,6 +4,7 @@
    transport (crossbeam channels of whole messages: a handle is a reference). *)
 From Coq Require Import List Arith ZArith Bool.
 From IPC Require Import K KProofs Prog Ideal Unix RefineProofs.
+From IPC Require K Prog Ideal Api ApiProofs ApiInv ApiConservative.
 Import ListNotations.
 
 Theorem C19_unix_is_ideal : forall ops : list op, snd (u_run u_init ops) = snd (i_run i_init ops).
@@ -21,3 +22,33 @@ Example C19_ex :
   snd (u_run u_init p) = snd (i_run i_init p) /\
   snd (i_run i_init p) = [RNew 0 1; RNew 2 3; RCloned 4; RSent; RDropped; RMsg 1 [(KRx, 5); (KTx, 6)]; RSent; REmpty; RDropped; RDropped; REmpty; RMsg 2 []].
 Proof. vm_compute. split; reflexivity. Qed.
+
+(* ---- the ideal model of the WHOLE single-process API (Api.v): the reference the three builds are compared with ---- *)
+Module ApiLevel.
+Import K Prog Ideal Api ApiProofs ApiInv ApiConservative.
+Local Open Scope nat_scope.
+
+(* every program keeps the ideal state well-formed: kernel core well-formed and stable, held references = handles, ids fresh *)
+Theorem C19_api_invariant : forall ops, a_inv (fst (a_run a_init ops)).
+Proof. exact a_inv_run. Qed.
+Print Assumptions C19_api_invariant.
+
+(* a region reads back what it was created from, whatever happens in between *)
+Theorem C19_api_region_stable : forall ops s o v,
+  nth_error (amem s) o = Some v -> nth_error (amem (fst (a_run s ops))) o = Some v.
+Proof. exact region_content_stable. Qed.
+Print Assumptions C19_api_region_stable.
+(* the ideal channel model is the restriction of the whole-API model to channel programs (non-negative payloads: Api writes an
+   undecodable message as a negative payload) ... *)
+Theorem C19_api_conservative : forall ops, Forall op_nn ops ->
+  snd (a_run a_init (map emb_op ops)) = map emb_out (snd (i_run i_init ops)).
+Proof. exact api_conservative. Qed.
+Print Assumptions C19_api_conservative.
+
+(* ... hence the model of the OS transport (descriptors, Arc-shared senders, consumed receivers) answers every channel program
+   exactly as the whole-API model does *)
+Theorem C19_unix_is_api : forall ops, Forall op_nn ops ->
+  map emb_out (snd (u_run u_init ops)) = snd (a_run a_init (map emb_op ops)).
+Proof. intros ops H. rewrite unix_refines_ideal. symmetry. now apply api_conservative. Qed.
+Print Assumptions C19_unix_is_api.
+End ApiLevel.
